@@ -1,4 +1,4 @@
-REPO_COMMITS = ["0e45a8e", "f51d74e", "e08c0a5", "7c6f8e4", "33cf0bf", "a187bb0"]
+REPO_COMMITS = ["0e45a8e", "f51d74e", "e08c0a5", "7c6f8e4", "33cf0bf", "a187bb0", "a08c8ef"]
 NOT_APPLICABLE = {}
 CHECKS = {
  "C05": dict(
@@ -21,4 +21,8 @@ CHECKS = {
   text="Held-on-what-was-observed: wrappers on match, match_multi, unique and rem_dup judge each observed call against a dict/Counter brute-force model on the Python values of the arguments: soundness, completeness, exactly-once, ordering by second-array position, presorted equivalence, scalar acceptance, rejection of a repeated first array, one index per distinct value carrying the maximum flag.",
   note="Trusts Python dict/Counter and numpy tolist(). Same-dtype arrays, no NaN, no empty input; presorted=True only with a sorted first array.",
   technique="API-boundary monitor with brute-force dictionary model"),
+ "C07": dict(
+  text="Held-on-what-was-observed: wrappers on extract/remove/add/reorder/combine/split_fields judge every observed call: result shape, the documented field list, per-field type (base type, sub-array shape, byte order) and raw element bytes of every retained field, zero/default fill of new fields, independence from the input buffer, and rejection of the invalid requests; copy_fields, copy_fields_by_name and compare_arrays are judged by the driver on before/after snapshots.",
+  note="Trusts numpy dtype.fields, ascontiguousarray().tobytes() and item assignment semantics (for expected default fill).",
+  technique="API-boundary monitor with documented-order model and bytewise per-field oracle"),
 }
